@@ -103,6 +103,9 @@ def _eight_bit_overflow(case):
 
 def call(case, img, typed_angle=True):
     fn = case["fn"]
+    # the image as a plain array, a numpy MaskedArray with flagged pixels (underlying data intact) or an ndarray
+    # subclass: array_like arguments are taken as their data
+    img = gen.array_class(img, int(np.asarray(img).shape[0]) + 3 * int(np.asarray(img).shape[-1]) + int(case["oversample"]))[0]
     os_ = gen.typed_scalar(case["oversample"], case.get("os_type"))
     ext = gen.typed_scalar(case["extent"], case.get("ext_type"))
     # keyword calls, or positional calls in the documented parameter order:
